@@ -17,6 +17,7 @@ import (
 	"github.com/ipld/go-storethehash/store/freelist"
 	"github.com/ipld/go-storethehash/store/primary"
 	"github.com/ipld/go-storethehash/store/types"
+	"github.com/ipld/go-storethehash/store/vhook"
 	"github.com/multiformats/go-multihash"
 )
 
@@ -217,6 +218,7 @@ func (cp *MultihashPrimary) Get(blk types.Block) ([]byte, []byte, error) {
 		return key, value, nil
 	}
 
+	vhook.Point("pri.get.afterCached")
 	localPos, fileNum := localizePrimaryPos(blk.Offset, cp.maxFileSize)
 
 	file, err := cp.fileCache.Open(primaryFileName(cp.basePath, fileNum))
@@ -376,6 +378,7 @@ func (cp *MultihashPrimary) Flush() (types.Work, error) {
 	// flushLock is still held, preventing concurrent flushes from changing the
 	// pools or accessing writer.
 
+	vhook.Point("pri.flush.afterSwap")
 	var work types.Work
 	for _, record := range cp.curPool.blocks {
 		blockWork, err := cp.flushBlock(record.key, record.value)
@@ -388,6 +391,7 @@ func (cp *MultihashPrimary) Flush() (types.Work, error) {
 	if err != nil {
 		return 0, fmt.Errorf("cannot flush data to primary file %s: %w", cp.file.Name(), err)
 	}
+	vhook.Point("pri.flush.afterWrite")
 
 	return work, nil
 }
